@@ -37,6 +37,10 @@ TARGETS = {
     "api+upper": {"elements": ["E", "H", "HE", "C", "O", "SI", "S", "MG"], "pseudo": ["CR", "PHOTON"],
                   "reactions": [[["HE+", "E"], ["HE"]], [["SI", "H+"], ["SI+", "H"]], [["S+", "E"], ["S"]], [["S", "H+"], ["S+", "H"]], [["SI", "O"], ["SIO"]],
                                 [["MG", "H+"], ["MG+", "H"]], [["C", "O"], ["CO"]]], "required": ["H2"]},
+    # the same spelling through the documented API flow (network first, reactions added afterwards), with a required species
+    # that no reaction holds and that reads differently under other lists (HE = helium here, H + E under the defaults)
+    "api+upper-required": {"elements": ["E", "H", "HE", "C", "O"], "pseudo": ["CR", "PHOTON"], "network_first": True,
+                           "reactions": [[["C", "O"], ["CO"]], [["H+", "E"], ["H"]], [["C+", "E"], ["C"]]], "required": ["HE", "H2"]},
 }
 EXPLICIT = {"elements": ["e", "E", "H", "D", "He", "C", "N", "O", "Si"], "pseudo": ["CR", "CRP", "PHOTON", "CRPHOT", "Photon", "g", "o", "p", "m"]}
 OTHERS = [
@@ -68,7 +72,7 @@ def run(res, info):
                 "descriptions relying on the default lists (known finding); histories of up to 4 constructions for the global-table model")
     res.assumptions = ["dates and project version are masked", "exploration, not proof, for everything CPython's hashing decides"]
     seeds = [0, 1, 12345] + ([rng.randrange(1 << 30)] if res.tier == "thorough" else [])
-    names = list(TARGETS) if res.tier == "thorough" else ["kida", "leeds+hh93", "api", "krome+commons", "api+thermal", "api+grains", "api+upper"]
+    names = list(TARGETS) if res.tier == "thorough" else ["kida", "leeds+hh93", "api", "krome+commons", "api+thermal", "api+grains", "api+upper", "api+upper-required"]
     for name in names:
         desc = dict(EXPLICIT, **TARGETS[name])        # a target may bring its own element lists
         case = {"kind": "c17", "target": name}
